@@ -47,6 +47,16 @@ fn full_alpide_decode_step() {
         && flags0.flushed_incomplete() < 1000 && flags0.strobe_extended() < 1000 && flags0.busy_transitions() < 1000);
     let b: u8 = kani::any();
     a.decode(b);
+    // representation invariant the bunch counter check relies on (it unwraps `bunch_counter` of every recorded chip):
+    // a chip is recorded only together with its bunch counter - preserved by every decoder step
+    let inv0 = (n < 1 || bcs[0].is_some()) && (n < 2 || bcs[1].is_some());
+    if inv0 {
+        let mut k = 0;
+        while k < a.chip_data.len() {
+            assert!(a.chip_data[k].bunch_counter.is_some(), "[C04][C13] every recorded chip has its bunch counter (check_bunch_counters unwraps it)");
+            k += 1;
+        }
+    }
     let trailers = a.alpide_stats.readout_flags().chip_trailers_seen();
     // the flag counters change only at a chip trailer, and then exactly as ReadoutFlags::log (full_readout_flags_log)
     // prescribes for the WHOLE trailer byte
